@@ -1,0 +1,10 @@
+//go:build verif
+// +build verif
+
+package text
+
+// VerifSchemaBudget returns the remaining traversal budget of the schema message the
+// encoder has cached for node id (read-only; for the verification harness in /verif).
+func (enc *Encoder) VerifSchemaBudget(id uint64) (budget uint64, ok bool) {
+	return enc.nodes.VerifBudget(id)
+}
